@@ -14,7 +14,7 @@ func init() {
 		ID:  "C08",
 		Run: runC08,
 		Meta: propMeta{
-			Explanation: "Static protocol clauses of kvstore.BatchedWriter/BatchCollector on all CFG paths: (1) writeWg.Add precedes the go statement that starts the writer and Done is reached on every exit, so Stop's Wait cannot pass an unannounced writer; (2) Enqueue publishes atomically with respect to Stop: the scheduled-count increment precedes the running check that licenses the send, every abort path takes the increment back, and the writer's loop condition reads running before the count (so a stopping writer cannot miss an announced object); (3) BatchCollector: BatchWriteDone only on the success edge of the batch Commit, once per collected slot; Add resets the scheduled flag, decrements the count, writes the object and stores it on every path; (4) typestate of the collector inside the writer loop (closure inlined, flush flag tracked): every collector is committed exactly once before it is replaced or the loop ends, no Add after Commit; (5) running is flipped only under the start/stop mutex and Stop waits after clearing it.",
+			Explanation: "Static protocol clauses of kvstore.BatchedWriter/BatchCollector on all CFG paths: (1) writeWg.Add precedes the go statement that starts the writer and Done is reached on every exit, so Stop's Wait cannot pass an unannounced writer; (2) Enqueue publishes atomically with respect to Stop: the scheduled-count increment precedes the running check that licenses the send, every abort path takes the increment back, and the writer's loop condition reads running before the count (so a stopping writer cannot miss an announced object); (3) BatchCollector: BatchWriteDone only on the success edge of the batch Commit, once per collected slot; Add resets the scheduled flag, decrements the count, writes the object and stores it on every path; (4) typestate of the collector inside the writer loop (closure inlined, flush flag tracked): every collector is committed exactly once before it is replaced or the loop ends, no Add after Commit; (5) running is flipped only under the start/stop mutex and Stop waits after clearing it. In BatchCollector.Add the scheduled flag is reset before the object is serialised.",
 			NotDecided:  "exactly-once delivery and termination over all schedules and queue sizes (needs schedule exploration); behaviour of BatchWriteObject implementations",
 			Assumptions: []string{"sync/atomic operations are sequentially consistent (Go memory model)", "BatchWriteScheduled is an atomic test-and-set on the object"},
 		},
